@@ -36,11 +36,15 @@ class Ctx:
         self.seed = seed
         self.replay = replay
         self.t0 = time.time()
-        self.work = os.path.join(VERIF, ".work", pid + ("_replay" if replay else ""))
+        # VERIF_WORK_TAG (developer runs against scratch copies): separate work/replay/evidence
+        # directories, so that such a run never disturbs a registered check or its evidence file
+        self.tag = os.environ.get("VERIF_WORK_TAG", "")
+        self.root = os.path.join(VERIF, ".work", "tag_" + self.tag) if self.tag else os.path.join(VERIF, ".work")
+        self.work = os.path.join(self.root, pid + ("_replay" if replay else ""))
         shutil.rmtree(self.work, ignore_errors=True)
         os.makedirs(self.work, exist_ok=True)
         if not replay:
-            shutil.rmtree(os.path.join(VERIF, ".work", "replays", pid), ignore_errors=True)
+            shutil.rmtree(os.path.join(self.root, "replays", pid), ignore_errors=True)
         self.n_tlc = 0
         self.lock = threading.Lock()
         # evidence accumulators
@@ -240,7 +244,7 @@ class Ctx:
                         break
 
     def write_replay(self, job, rec, v):
-        d = os.path.join(VERIF, ".work", "replays", self.pid)
+        d = os.path.join(self.root, "replays", self.pid)
         os.makedirs(d, exist_ok=True)
         k = len(os.listdir(d))
         path = os.path.join(d, "%s_%03d_%s_%s.json" % (self.pid, k, rec.get("fn", "x"), v[0]))
@@ -288,8 +292,9 @@ class Ctx:
                   coverage=cov, assumptions=self.assumptions,
                   wall_s=round(time.time() - self.t0, 2), violations=len(self.violations))
         if not self.replay:
-            os.makedirs(os.path.join(VERIF, "evidence"), exist_ok=True)
-            with open(os.path.join(VERIF, "evidence", self.pid + ".json"), "w") as f:
+            evdir = os.path.join(self.root, "evidence") if self.tag else os.path.join(VERIF, "evidence")
+            os.makedirs(evdir, exist_ok=True)
+            with open(os.path.join(evdir, self.pid + ".json"), "w") as f:
                 json.dump(ev, f, indent=1, default=str)
         log("%s %s: %d real executions judged by TLC, %d model states, %d violations, "
             "%d known-finding records, %d skipped, %d inconclusive, %.1fs" % (
